@@ -140,7 +140,7 @@ async fn run(case: &Case) -> Outcome {
             for (id, t) in before.live.iter() {
                 let now = rebuilt.live.get(id).or_else(|| rebuilt.dead.get(id));
                 ensure!(
-                    matches!(now, Some(n) if n >= t),
+                    rebuilt.live.get(id) == Some(t) || matches!(now, Some(n) if n > t),
                     "acked-write-lost",
                     "keyspace {name}: id {id} was live at {:?} before the stop, after restart the set holds {:?}",
                     t,
@@ -173,7 +173,7 @@ async fn run(case: &Case) -> Outcome {
             for (id, t) in before.dead.iter() {
                 let now = rebuilt.live.get(id).or_else(|| rebuilt.dead.get(id));
                 ensure!(
-                    matches!(now, Some(n) if n >= t) || in_flight_purge,
+                    rebuilt.dead.get(id) == Some(t) || matches!(now, Some(n) if n > t) || in_flight_purge,
                     "acked-delete-lost",
                     "keyspace {name}: id {id} was deleted at {:?} before the stop, after restart the set holds {:?}",
                     t,
@@ -706,6 +706,21 @@ pub mod backend {
         Ok(v)
     }
 
+    /// The set against what the backend's READ path returns (independent of the flags `iter_metadata` reports):
+    /// a live id has a document carrying the set's stamp, a tombstoned id has none.
+    async fn check_reads<S: Storage>(store: &S, ks: &str, set: &SetView, when: &str) -> Result<(), Fail> {
+        for (id, t) in set.live.iter() {
+            let got = store.get(ks, *id).await.map_err(|e| Fail { signature: "backend-error".into(), message: format!("get({ks},{id}) failed: {e}") })?;
+            let got = got.map(|d| Stamp::of(d.last_updated()));
+            ensure!(got == Some(*t), "live-in-set-but-not-readable", "{when}: keyspace {ks}: id {id} is live at {:?} in the set but a read from storage returns {:?}", t, got);
+        }
+        for (id, t) in set.dead.iter() {
+            let got = store.get(ks, *id).await.map_err(|e| Fail { signature: "backend-error".into(), message: format!("get({ks},{id}) failed: {e}") })?;
+            ensure!(got.is_none(), "tombstone-in-set-but-readable", "{when}: keyspace {ks}: id {id} is a tombstone at {:?} in the set but a read from storage returns a document at {:?}", t, got.map(|d| Stamp::of(d.last_updated())));
+        }
+        Ok(())
+    }
+
     fn thread_count() -> usize {
         std::fs::read_dir("/proc/self/task").map(|d| d.count()).unwrap_or(0)
     }
@@ -761,10 +776,15 @@ pub mod backend {
                         } else {
                             ensure!(rebuilt == SetView::default(), "state-for-unlisted-keyspace", "restart {life}: keyspace {name} is not listed by storage but has state {:?}", rebuilt);
                         }
+                        if listed.contains(&name) {
+                            check_reads(&*store, &name, &rebuilt, &format!("restart {life}")).await?;
+                        }
                         for (id, t) in before[k].live.iter() {
                             let now = rebuilt.live.get(id).or_else(|| rebuilt.dead.get(id));
+                            // still live at the same stamp, or superseded by something strictly newer: a tombstone
+                            // carrying the write's own stamp means the document was turned into a delete
                             ensure!(
-                                matches!(now, Some(n) if n >= t),
+                                rebuilt.live.get(id) == Some(t) || matches!(now, Some(n) if n > t),
                                 "acked-write-lost",
                                 "restart {life}: keyspace {name}: id {id} was live at {:?} when the node stopped, the rebuilt set holds {:?} (storage lists keyspaces {:?})",
                                 t,
@@ -780,7 +800,7 @@ pub mod backend {
                             let purgeable = matches!(newest, Some(n) if n.secs >= t.secs + 3_600);
                             let purged = now.is_none() && purgeable && !storage_view(&*store, &name).await?.dead.contains_key(id);
                             ensure!(
-                                matches!(now, Some(n) if n >= t) || purged,
+                                rebuilt.dead.get(id) == Some(t) || matches!(now, Some(n) if n > t) || purged,
                                 "acked-delete-lost",
                                 "restart {life}: keyspace {name}: id {id} was a tombstone at {:?} when the node stopped, the rebuilt set holds {:?} (storage lists keyspaces {:?})",
                                 t,
@@ -798,6 +818,7 @@ pub mod backend {
                                 let name = ks_name(k);
                                 let sv = set_view(&group, &name).await;
                                 let st = storage_view(&*store, &name).await?;
+                                check_reads(&*store, &name, &sv, &format!("after request {i} ({})", req_json(r))).await?;
                                 ensure!(
                                     sv == st,
                                     "set-differs-from-storage",
